@@ -54,18 +54,43 @@ type stubDL struct {
 	gated   bool
 	waiting []chan struct{}
 	arrived chan struct{}
+	expired map[core.Duty]bool
 }
 
 func newStubDL() *stubDL {
 	return &stubDL{ch: make(chan core.Duty), arrived: make(chan struct{}, 1024)}
 }
 
-func (s *stubDL) Add(core.Duty) core.DeadlineStatus {
+// verdict answers like the real deadliner: exempt duty types never expire, a duty the driver has expired is refused as
+// expired, everything else is scheduled.  (What a store does with the answer is the store's business: the property wants a
+// stored value readable whatever it was.)
+func (s *stubDL) verdict(d core.Duty) core.DeadlineStatus {
+	if d.Type == core.DutyExit || d.Type == core.DutyBuilderRegistration {
+		return core.DeadlineExempt
+	}
+	s.mu.Lock()
+	defer s.mu.Unlock()
+	if s.expired[d] {
+		return core.DeadlineExpired
+	}
+	return core.DeadlineScheduled
+}
+
+func (s *stubDL) markExpired(d core.Duty) {
+	s.mu.Lock()
+	defer s.mu.Unlock()
+	if s.expired == nil {
+		s.expired = map[core.Duty]bool{}
+	}
+	s.expired[d] = true
+}
+
+func (s *stubDL) Add(d core.Duty) core.DeadlineStatus {
 	s.adds.Add(1)
 	s.mu.Lock()
 	if !s.gated {
 		s.mu.Unlock()
-		return core.DeadlineScheduled
+		return s.verdict(d)
 	}
 	ch := make(chan struct{})
 	s.waiting = append(s.waiting, ch)
@@ -73,7 +98,7 @@ func (s *stubDL) Add(core.Duty) core.DeadlineStatus {
 	s.arrived <- struct{}{}
 	<-ch
 
-	return core.DeadlineScheduled
+	return s.verdict(d)
 }
 
 func (s *stubDL) C() <-chan core.Duty { return s.ch }
@@ -103,6 +128,7 @@ func (s *stubDL) openGate() {
 
 // tables maps model ids to real objects and back.
 type tables struct {
+	exempt bool
 	duties map[string]core.Duty
 	pks    map[string]core.PubKey
 	vals   map[string]core.SignedData
@@ -121,6 +147,9 @@ func (tb *tables) duty(id string) core.Duty {
 	d := core.NewAttesterDuty(1000 + n)
 	if n%3 == 0 {
 		d = core.NewProposerDuty(1000 + n)
+	}
+	if tb.exempt && id == "d3" { // a duty type the deadliner never schedules (it never expires)
+		d = core.NewVoluntaryExit(1000 + n)
 	}
 	tb.duties[id] = d
 	return d
@@ -294,6 +323,7 @@ func runOne(tr *drv.Tracer, sid int, sched []drv.Step, impl string) (hung bool) 
 	defer cancel()
 	x := &run{tr: tr, tb: newTables(), dl: newStubDL(), ctx: ctx,
 		readers: map[string]*reader{}, known: map[mkey]bool{}, expd: map[string]bool{}}
+	x.tb.exempt = sid%3 == 1
 	if impl == "v1" {
 		x.db = aggsigdb.NewMemDB(x.dl)
 	} else {
@@ -629,5 +659,6 @@ func (x *run) expire(d string) bool {
 		}
 	}
 	x.expd[d] = true
+	x.dl.markExpired(duty)
 	return x.settle()
 }
